@@ -30,7 +30,8 @@ K_MAX = 14
 
 CONT_NEW = {"std::collections::VecDeque::new": "deque", "std::vec::Vec::new": "vec",
             "std::collections::VecDeque::with_capacity": "deque", "std::vec::Vec::with_capacity": "vec",
-            "std::default::Default::default": "vec"}
+            "std::default::Default::default": "vec", "std::iter::FromIterator::from_iter": "seq", "std::iter::Iterator::collect": "seq",
+            "std::collections::VecDeque::from_iter": "deque", "std::vec::Vec::from_iter": "vec"}
 PUSH_BACK = {"std::collections::VecDeque::push_back", "std::vec::Vec::push"}
 PUSH_FRONT = {"std::collections::VecDeque::push_front"}
 POP_FRONT = {"std::collections::VecDeque::pop_front"}
@@ -145,6 +146,10 @@ class Summary:
             if t[0] in ("const", "unk", "val", "discr"):
                 return None
             gs = self.P.global_cell(self.b, t, through_helpers=True)
+            if any(g[1] in ("const", "val", "unk", "discr") for g in gs):
+                # a parameter of a (recursive) local fn whose callers pass computed values (retry's attempt number): keep the
+                # parameter itself as the quantity
+                gs = self.P.global_cell(self.b, t, through_helpers=False)
             for g in gs:
                 # the Ok payload of a try_read/try_write/try_lock result is the guard, i.e. the cell itself
                 if len(g[3]) >= 2 and g[3][0] == "@Ok" and g[3][1] == "0":
@@ -666,6 +671,25 @@ class Summary:
                 p.trace.append(("cont_" + name,))
                 return done(p)
             return done(p)
+        if path in ("std::collections::HashMap::get", "std::collections::HashMap::get_mut") and c.args:
+            return done(p, ("opt", ("bvar", "in:known"), ("elem",)))
+        if path == "std::collections::HashMap::contains_key" and c.args:
+            return done(p, ("bvar", "in:known"))
+        if path in ("std::iter::Iterator::all", "std::iter::Iterator::any") and c.args and not (self.sink_param or self.sink_upvar):
+            tgts = self.E.inline_targets(c)
+            if not any(self.E.may(t_) & {"sink_next", "sink_complete", "sink_error", "obs_next"} for t_ in tgts):
+                return done(p, ("bvar", "in:" + path.split("::")[-1]))
+        if path.startswith("std::iter::Iterator::") and c.args:
+            fan = set()
+            for t_ in self.E.inline_targets(c):
+                for k_ in t_.calls:
+                    a_ = atom(k_)
+                    if a_ in ("subject_next", "subject_error", "subject_complete"):
+                        fan.add(a_)
+            for a_ in sorted(fan):
+                p.trace.append(("window_" + a_.split("_")[1], "each") if a_ == "subject_next" else ("window_" + a_.split("_")[1],))
+            if fan:
+                return done(p)
         if path == "std::collections::HashMap::insert" and len(c.args) >= 2:
             kv = self.operand(p, c.args[1], True)
             p.trace.append(("map_insert",))
@@ -927,7 +951,8 @@ class Summary:
         if a == "subject_observable":
             return done(p, ("window",))
         if a == "is_subscribed":
-            return done(p, TOP)
+            # whether the subscription is still live is an input of the handler, the same for the whole call
+            return done(p, ("bvar", "in:live"))
         if path in ("std::result::Result::is_ok", "std::result::Result::is_err") and c.args:
             v = self.operand(p, c.args[0])
             if isinstance(v, tuple) and v and v[0] == "res":
@@ -956,10 +981,40 @@ class Summary:
         if (self.sink_param is not None or self.sink_upvar is not None) and path.startswith("std::iter::Iterator::"):
             for t in self.E.inline_targets(c):
                 if self.E.may(t) & {"obs_next"}:
+                    # closures of the adapter chain that poll the subscriber (take_while(|_| s.is_subscribed())) make the
+                    # emission conditional on the subscription being live
+                    polls = False
+                    chain = [c]
+                    seen_bb = set()
+                    while chain:
+                        k_ = chain.pop()
+                        if k_.bb in seen_bb:
+                            continue
+                        seen_bb.add(k_.bb)
+                        for t2 in self.E.inline_targets(k_):
+                            if any(atom(x) == "is_subscribed" for x in t2.calls):
+                                polls = True
+                        if k_.args:
+                            for pt in b.operand_prov(k_.args[0]):
+                                if pt[0] == "ret":
+                                    k2 = b.call_at(pt[1])
+                                    if k2 is not None and k2.path.startswith("std::iter::"):
+                                        chain.append(k2)
+                    if polls:
+                        q = p.fork()
+                        p.pc.append(("bvar", "in:live"))
+                        p.trace.append(("sink_next", "other"))
+                        done(p)
+                        q.pc.append(b_not(("bvar", "in:live")))
+                        done(q)
+                        return
                     p.trace.append(("sink_next", "other"))
                     return done(p)
         # anything else: a crate-local call that may emit is outside the abstraction
         cb = self.E.callee_body(c)
+        if cb is not None and "subscribe" in self.E.may(cb) and not (self.E.may(cb) & {"sink_next", "sink_complete", "sink_complete_force", "sink_error"}):
+            p.trace.append(("resubscribe", norm(c.path).split("::")[-1]))
+            return done(p)
         if cb is not None:
             may = self.E.may(cb)
             if may & {"sink_next", "sink_complete", "sink_complete_force", "sink_error", "abort", "finalize"}:
@@ -1136,6 +1191,8 @@ class Summary:
     def step(self, sigma, proj):
         """feasible transitions under the concrete valuation sigma: set of (projected trace, next cells)"""
         res = {}
+        sigma = dict(sigma)
+        sigma.setdefault("in:live", True)
         for p in self.paths:
             try:
                 if not all(ev_bool(e, sigma) for e in p.pc):
@@ -1156,7 +1213,7 @@ class Summary:
 
 
 # ---- operator tables ------------------------------------------------------------------------
-ALPHABET = {"user_fn", "remember", "combine", "reversed", "subscribe", "sub_unsubscribe", "sink_next", "sink_complete", "sink_complete_force", "sink_error", "abort", "finalize", "push_back", "push_front",
+ALPHABET = {"user_fn", "remember", "combine", "reversed", "subscribe", "sub_unsubscribe", "resubscribe", "map_insert", "sink_next", "sink_complete", "sink_complete_force", "sink_error", "abort", "finalize", "push_back", "push_front",
             "pop_front", "pop_back", "clear", "take_all", "window_next", "window_complete", "window_error", "store",
             "panic", "loop", "opaque", "cont_replace", "cont_truncate", "cont_drain", "cont_retain", "cont_remove",
             "cont_insert", "cont_append", "cont_extend", "cont_split_off", "cont_resize", "cont_swap_remove"}
@@ -1377,6 +1434,7 @@ def _check_operator(r, P, S, root, name, spec, cmin, hb, ends=None):
         for k in range(1, K_MAX + 1):
             sigma = dict(state)
             sigma[bsym] = count
+            sigma["in:live"] = True
             # the source may end here, after k-1 items
             for role, SE in sorted((ends or {}).items()):
                 for s_ in SE.symbols():
